@@ -112,11 +112,16 @@ fn root_selection(a: &[f64]) {
         let l = State::new_npt(&pr, t, p, &moles, DensityInitialization::Liquid);
         let v = State::new_npt(&pr, t, p, &moles, DensityInitialization::Vapor);
         let n = State::new_npt(&pr, t, p, &moles, DensityInitialization::None);
-        if let (Ok(l), Ok(v), Ok(n)) = (&l, &v, &n) {
-            let il = State::new_npt(&pr, t, p, &moles, DensityInitialization::InitialDensity(l.density * 1.02));
-            let iv = State::new_npt(&pr, t, p, &moles, DensityInitialization::InitialDensity(v.density * 0.98));
+        // reference roots, independent of the hints: explicit initial densities (ideal gas / maximum density)
+        let maxrho = pr.max_density(Some(&moles)).unwrap();
+        let rv = State::new_npt(&pr, t, p, &moles, DensityInitialization::InitialDensity(p / t / RGAS));
+        let rl = State::new_npt(&pr, t, p, &moles, DensityInitialization::InitialDensity(maxrho));
+        if let (Ok(l), Ok(v), Ok(n), Ok(rv), Ok(rl)) = (&l, &v, &n, &rv, &rl) {
+            let il = State::new_npt(&pr, t, p, &moles, DensityInitialization::InitialDensity(rl.density * 1.02));
+            let iv = State::new_npt(&pr, t, p, &moles, DensityInitialization::InitialDensity(rv.density * 0.98));
             let r = |s: &State<PengRobinson>| s.density.to_reduced();
-            pts.push(json!({"Tr": tr, "pr": pr_, "rho_liquid": r(l), "rho_vapor": r(v), "rho_none": r(n),
+            pts.push(json!({"Tr": tr, "pr": pr_, "rho_liquid": r(l), "rho_vapor": r(v), "rho_none": r(n), "ref_vapor": r(rv), "ref_liquid": r(rl),
+                "g_ref_liquid": rl.residual_gibbs_energy().to_reduced(), "g_ref_vapor": rv.residual_gibbs_energy().to_reduced(),
                 "g_liquid": l.residual_gibbs_energy().to_reduced(), "g_vapor": v.residual_gibbs_energy().to_reduced(),
                 "rho_init_near_liquid": il.as_ref().map(r).unwrap_or(f64::NAN), "rho_init_near_vapor": iv.as_ref().map(r).unwrap_or(f64::NAN)}));
         }
